@@ -416,6 +416,16 @@ class Analysis:
                 if b is not None and b.kind in ("ext", "module", "class"):
                     return FRESH
             b = self.ev(e.value, env)
+            if isinstance(e, ast.Attribute):
+                # a property read is a call of the getter on the object (resolved by E1)
+                tg = self.eng.types.call_targets.get((self.fi.qual, id(e)), set())
+                props = [self.eng.types.fn_by_qual[q] for q in tg if q in self.eng.types.fn_by_qual
+                         and "property" in self.eng.types.fn_by_qual[q].decorators]
+                if props:
+                    out = FRESH
+                    for fi2 in props:
+                        out = vjoin(out, self.apply(fi2, [b], {}, e, recv_first=True))
+                    return out
             if isinstance(e, ast.Subscript):
                 if isinstance(e.slice, ast.Slice):
                     for p in (e.slice.lower, e.slice.upper, e.slice.step):
